@@ -71,6 +71,22 @@ PipeC(e, got) == IF e.raised THEN Unknown ELSE got.nodes[e.n].cand
 FbOf(e, got) == [on |-> e.fallback,
                  seeds |-> got.nodes[e.n].seeds.v, sets |-> got.nodes[e.n].sets.v]
 
+\* C20: find_node, summary, is_subgraph / is_isomorphic
+FindSpec(d, q) == IF \E n \in Ids(d) : d.nodes[n].space = q THEN CHOOSE n \in Ids(d) : d.nodes[n].space = q ELSE 0
+SummarySpec(d) ==
+    LET withSeeds == SelectSeq([n \in DOMAIN d.nodes |-> n], LAMBDA n : d.nodes[n].seeds.k = 1 /\ d.nodes[n].seeds.v # <<>>)
+    IN <<Len(d.nodes), Max({d.nodes[n].depth : n \in Ids(d)}),
+         [i \in DOMAIN withSeeds |-> <<IF IsMinimalNode(d, withSeeds[i]) THEN 1 ELSE 0,
+                                        d.nodes[withSeeds[i]].space, d.nodes[withSeeds[i]].seeds.v>>]>>
+SubgraphSpec(a, b) ==
+    \A n \in {x \in Ids(a) : a.nodes[x].expanded} :
+        /\ \E m \in Ids(b) : b.nodes[m].space = a.nodes[n].space
+        /\ \A c \in Succs(a, n) :
+              \E m \in Ids(b) : \E k \in Succs(b, m) :
+                  b.nodes[m].space = a.nodes[n].space /\ b.nodes[k].space = a.nodes[c].space
+B2I(x) == IF x THEN 1 ELSE 0
+CmpSpec(a, b) == <<B2I(SubgraphSpec(a, b)), B2I(SubgraphSpec(b, a)), B2I(SubgraphSpec(a, b) /\ SubgraphSpec(b, a))>>
+
 Expected(d, e, got) ==
     CASE e.op = "new"     -> Res(NewDiagram(S), "ok")
       [] e.op = "exp"     -> Driver(d, ExpBegin(e.n), e)
@@ -88,6 +104,9 @@ Expected(d, e, got) ==
       [] e.op = "reclaim" -> Res(Reclaim(d), "ok")
       [] e.op = "pickle"  -> Res(d, "ok")
       [] e.op = "noop"    -> Res(d, "ok")
+      [] e.op = "find"    -> Res(d, ToString(FindSpec(d, e.target)))
+      [] e.op = "summary" -> [Res(d, "ok") EXCEPT !.out = SummarySpec(d)]
+      [] e.op = "cmp"     -> [Res(d, "ok") EXCEPT !.out = CmpSpec(d, FromProj(e.other))]
       [] OTHER            -> [Res(got, e.ret) EXCEPT !.adopt = TRUE]     \* block / scc / build / allseeds / expseeds
 
 \* the solver-order inputs must be permutations of the true minimal trap spaces of the start node
@@ -161,7 +180,7 @@ Mismatch(x, got, e) ==
        \cup (IF x.d.idx = got.idx THEN {} ELSE {"IDX"})
        \cup (IF Len(x.d.nodes) = Len(got.nodes) /\ CacheMatches(x.d, got, e) THEN {} ELSE {"CACHE"})
        \cup (IF x.ret = e.ret /\ (e.raised <=> x.ret = "error") THEN {} ELSE {"RET"})
-       \cup (IF e.op \in {"cand", "seeds", "sets"} /\ ~e.raised /\ ~(e.op = "seeds" /\ e.fallback) /\ x.out # e.out
+       \cup (IF e.op \in {"cand", "seeds", "sets", "summary", "cmp"} /\ ~e.raised /\ ~(e.op = "seeds" /\ e.fallback) /\ x.out # e.out
              THEN {"OUT"} ELSE {})
        \cup (IF x.xl = e.xl THEN {} ELSE {"XL"})
        \cup (IF x.unsound THEN {"ORACLE"} ELSE {}))
@@ -170,7 +189,7 @@ Mismatch(x, got, e) ==
     \cup (IF WorkOK(e) THEN {} ELSE {"WORK"})
 
 PlainOp(e) == e.op \in {"new", "exp", "bfs", "dfs", "tgt", "aseeds", "cand", "seeds", "sets", "reclaim", "pickle",
-                         "control", "allseeds", "allsets", "expseeds", "noop"}
+                         "control", "allseeds", "allsets", "expseeds", "noop", "find", "summary", "cmp"}
               \/ (e.op = "min" /\ ~e.skip) \/ (e.op = "block" /\ ~e.optsrc)
 
 \* C01: the six complete strategies with default settings, started on a fresh diagram
@@ -184,7 +203,7 @@ CompleteStrategy(e) ==
 NextMode(m, e) ==
     IF e.op = "new" THEN "fresh"
     ELSE IF m = "fresh" /\ CompleteStrategy(e) THEN "complete"
-    ELSE IF m = "complete" /\ e.op \in {"expseeds", "allseeds", "allsets", "seeds", "cand", "sets", "reclaim", "pickle"} /\ ~e.raised THEN "complete"
+    ELSE IF m = "complete" /\ e.op \in {"expseeds", "allseeds", "allsets", "seeds", "cand", "sets", "reclaim", "pickle", "find", "summary", "cmp", "noop"} /\ ~e.raised THEN "complete"
     ELSE "other"
 
 InitEv == [op |-> "init"]
